@@ -275,7 +275,7 @@ let run_schedule (steps : string) : string =
         match split_on ':' s with
         | [t; a] ->
           let t = nat_of_int (int_of_string t) in
-          if a.[0] = 'f' then ('f', Some (CFail (t, n_of_int (1 + (int_of_string (String.sub a 1 (String.length a - 1)) mod 13)))))
+          if a.[0] = 'f' || a.[0] = 'x' then ('f', Some (CFail (t, n_of_int (1 + (int_of_string (String.sub a 1 (String.length a - 1)) mod 13)))))
           else if a.[0] = 'n' then ('n', None)
           else ('r', Some (CRead t))
         | _ -> failwith "bad schedule step")
@@ -366,6 +366,18 @@ let rec run_op (ctx : ctx) (op : string) : string =
     let p = unhex f.(1) and off = nat_of_int (int_of_string f.(2)) in
     on_res (uncompress_with_previous_offset p off) (fun (v, o) -> Printf.sprintf "OK:%s@%d" (hex v) (int_of_nat o))
   | "C" -> on_res (compress (unhex f.(1))) (fun v -> "OK:" ^ hex v)
+  | "DD" ->
+    (* a dictionary is a value: what another dictionary is used for in between cannot matter *)
+    let names = List.map unhex (split_on '.' f.(1)) in
+    let rec go d out = function
+      | [] -> Ok out
+      | n :: rest ->
+        (match copy_compressed_name d out n (nat_of_int 0) with
+         | Ok (((out', d'), _), _) -> go d' out' rest
+         | Err e -> Err e
+         | Panic s -> Panic s)
+    in
+    on_res (go sd_new (unhex "000000000000000000000000") names) (fun v -> Printf.sprintf "DD:%s|%s" (hex v) (hex v))
   | "CU" ->
     on_res (compress (unhex f.(1))) (fun v ->
         match uncompress_with_previous_offset v (nat_of_int 12) with
